@@ -935,6 +935,9 @@ def nrm2(p, res, rule="NRM-2"):
                                 cnt = sym.operand(t["a"][at[0][1] - 1])
                 if cnt is not None:
                     sites[bi] = cnt
+        if sites:
+            for bi in _inline_carry_closures(p, f, g):
+                sites.setdefault(bi, Poly.const(1))
         if not sites:
             continue
         # loops that contain a chain site, with their trip counts
@@ -1018,6 +1021,18 @@ def nrm2(p, res, rule="NRM-2"):
     return n
 
 
+def _inline_carry_closures(p, f, g):
+    """blocks of f, inside a loop, that build a closure applying get_carry (the inline form of a carry-only pass: `carry.iter_mut().for_each(|c| ..get_carry..)`)"""
+    out = []
+    for bi, blk in enumerate(f.blocks):
+        for st in blk["s"]:
+            if st[0] == "A" and st[2]["k"] == "Agg" and st[2].get("ak") == "Closure" and g.innermost_loop(bi) is not None:
+                cf = p.fn(f.duid(st[2]["clos"]))
+                if cf is not None and cf.blocks and any((cf.callee_def(t2) or {}).get("n") in ("get_carry_i64", "get_carry_i128") for _, t2 in cf.calls()):
+                    out.append(bi)
+    return out
+
+
 def _carry_helper_count(p, f, sym, t):
     """a call of a local helper that runs the digit / carry pair over its carry argument `count` times (a `for _ in 0..count` loop around get_digit / get_carry): the count
     argument as an expression of the caller, else None"""
@@ -1070,6 +1085,8 @@ def nrm3(p, res, rule="NRM-3"):
                 cnt = _carry_helper_count(p, f, sym, t)
                 if cnt is not None:
                     helpers.append(cnt)
+        for bi in _inline_carry_closures(p, f, g):
+            sites[bi] = 1
         if not sites:
             continue
         trips = {}
